@@ -1,0 +1,15 @@
+//go:build verif
+
+package chpool
+
+import "github.com/ClickHouse/ch-go"
+
+// VerifHealthCheck runs one round of the background health check
+// synchronously, so that a verification harness can schedule it.
+func (p *Pool) VerifHealthCheck() {
+	p.checkIdleConnsHealth()
+	p.checkMinConns()
+}
+
+// VerifClient exposes the underlying client of an acquired handle.
+func (c *Client) VerifClient() *ch.Client { return c.client() }
